@@ -211,6 +211,70 @@ fn check_pair_inner(a: &Item, b: &Item, st: &mut Stats, mode: Count) {
     }
 }
 
+/// ==, hash and cmp must be consistent with each other on pairs the string clause does not cover
+fn consistency_pairs(a: &Item, st: &mut Stats) {
+    let r = guard(|| {
+        let mut out: Vec<(String, Locale, Locale)> = vec![];
+        let (l, sc, rg, vs) = a.loc.id.clone().into_parts();
+        let tw = unic_locale::LanguageIdentifier::from_raw_parts_unchecked(l, sc, rg, Some(vs.into_boxed_slice()));
+        let mut t = a.loc.clone();
+        t.id = tw;
+        out.push(("raw-parts-twin".into(), a.loc.clone(), t));
+        let mut o1 = a.loc.clone();
+        o1.extensions.other.insert('a', vec!["foo".parse().unwrap()]);
+        let mut o2 = a.loc.clone();
+        o2.extensions.other.insert('a', vec!["foo".parse().unwrap(), "bar".parse().unwrap()]);
+        let mut o3 = a.loc.clone();
+        o3.extensions.other.insert('b', vec!["foo".parse().unwrap()]);
+        out.push(("other-vs-none".into(), a.loc.clone(), o1.clone()));
+        out.push(("other-vs-other".into(), o1.clone(), o2));
+        out.push(("other-vs-other-key".into(), o1.clone(), o3));
+        out.push(("other-vs-same".into(), o1.clone(), o1));
+        out
+    });
+    let Ok(pairs) = r else { return };
+    for (what, x, y) in pairs {
+        st.eval();
+        st.class(&format!("consistency-only pair: {what}"));
+        let case = || json!({"kind": "consistency-pair", "what": what, "a": a.case});
+        let r = guard(|| {
+            let eq = x == y;
+            let c = x.cmp(&y);
+            let mut bad = vec![];
+            if eq && h(&x) != h(&y) {
+                bad.push("equal values hash differently");
+            }
+            if eq != (c == Ordering::Equal) || y.cmp(&x) != c.reverse() || x.partial_cmp(&y) != Some(c) {
+                bad.push("== and cmp disagree");
+            }
+            let (ix, iy) = (&x.id, &y.id);
+            if (ix == iy) && h(ix) != h(iy) || (ix == iy) != (ix.cmp(iy) == Ordering::Equal) {
+                bad.push("language identifier: ==, hash and cmp disagree");
+            }
+            let (ex, ey) = (&x.extensions, &y.extensions);
+            if (ex == ey) && h(ex) != h(ey) || (ex == ey) != (ex.cmp(ey) == Ordering::Equal) {
+                bad.push("extensions map: ==, hash and cmp disagree");
+            }
+            bad
+        });
+        match r {
+            Ok(bad) => {
+                for b in bad {
+                    st.fail(format!("consistency:{what}:{b}"), case(), a.s.len(), format!("{} ({what})", a.s));
+                }
+            }
+            Err(p) => st.fail(format!("consistency:{}", panic_sig(&p)), case(), a.s.len(), format!("{p:?}")),
+        }
+    }
+}
+
+fn replay_consistency(case: &Value, st: &mut Stats) {
+    if let Some(a) = values::value_from_case(&case["a"]) {
+        let ia = item(a, case["a"].clone());
+        consistency_pairs(&ia, st);
+    }
+}
+
 pub fn run(cfg: &Cfg) -> Stats {
     // 1. collect values with their routes
     let bucket: Mutex<Vec<Item>> = Mutex::new(vec![]);
@@ -279,6 +343,17 @@ pub fn run(cfg: &Cfg) -> Stats {
         total = total.merge(s);
         total.subspace("every collected value paired with the re-parse of its printed form", nn, true);
     }
+    // 2c. consistency among ==, hash and cmp alone (no statement about strings) for pairs the string
+    // clause does not cover: a present-but-empty variant list built through the safe constructor
+    // from_raw_parts_unchecked (which meets its documented expectation), and values whose public,
+    // unsupported `other` extension field was filled by hand. Whatever == says about such a pair,
+    // equal values must hash alike and compare Equal, and only equal values may compare Equal.
+    {
+        let nn = items.len() as u64;
+        let s = par_range(nn, |i, st| consistency_pairs(&items[i as usize], st));
+        total = total.merge(s);
+        total.subspace("consistency of ==, hash and cmp for present-but-empty variant lists and hand-filled `other` fields (5 pairs per collected value)", nn * 5, true);
+    }
     // 3. cross-pool pairs: a strided sample so that far-apart values meet too
     let n = items.len();
     if n > 2 {
@@ -295,6 +370,10 @@ pub fn run(cfg: &Cfg) -> Stats {
 }
 
 pub fn replay(case: &Value, st: &mut Stats) {
+    if case["kind"] == json!("consistency-pair") {
+        replay_consistency(case, st);
+        return;
+    }
     let (Some(a), Some(b)) = (values::value_from_case(&case["a"]), values::value_from_case(&case["b"])) else { return };
     let ia = item(a, case["a"].clone());
     let ib = item(b, case["b"].clone());
